@@ -867,7 +867,9 @@ inline bool levels_F(Rng& r, uint64_t idx)
   uint32_t const nfilters = filters_added.load();
   std::vector<Issue> phase2;
   {
-    w.loggers[0].lg->flush_log(0);
+    // quiescence that does not lean on flush_log()'s cross-thread clause: stop() drains every queue, then a new backend
+    quill::Backend::stop();
+    quill::Backend::start(w.bo);
     w.loggers[0].lg->set_log_level(quill::LogLevel::TraceL3);
     for (uint32_t i = 0; i < ns; ++i) w.sinks[i]->set_log_level_filter(quill::LogLevel::TraceL3);
     for (uint32_t k = 0; k <= 8; ++k)
